@@ -195,6 +195,7 @@ def regression_scenarios():
         steps.append({"op": "commit", "msg": "round 1: f1 only, no agent", "paths": ["f1.txt"], "add": "paths"})
 
     mk("untracked-ai-file-left-out-of-two-commits", untracked_left_out_twice)
+    out[-1]["no_correspond"] = True      # the correspondence's flush checkpoint would give the untracked file an entry
     mk("unstaged-deletion-above-staged-ai-line", o2_delete)
     mk("unstaged-growing-replacement-above-staged-ai-line", o2_grow)
     mk("staged-ai-line-modified-again-by-the-agent", modified_again)
@@ -315,7 +316,9 @@ def sys_tie(res, scs):
 def phase_e2e(res, seeds, threads=16, fixed=()):
     scs = list(fixed) + [gen_scenario(s) for s in seeds]
     for k, sc in enumerate(scs):
-        sc["correspond"] = (k % 2 == 0) or bool(sc.get("no_sys_tie"))     # half the generated scenarios also feed the Split3 correspondence
+        # half the generated scenarios also feed the Split3 correspondence; its snapshot flushes pending edits with an explicit
+        # checkpoint before every commit, which changes what the history exercises: scenarios marked no_correspond run untouched
+        sc["correspond"] = not sc.get("no_correspond") and ((k % 2 == 0) or bool(sc.get("no_sys_tie")))
     with concurrent.futures.ThreadPoolExecutor(threads) as ex:
         outs = list(ex.map(run_scenario, scs))
     all_corr = [c for (_, _, corr) in outs for c in corr]
